@@ -158,6 +158,12 @@ def trial_quantities(kin, H, plastic_old):
         Ce = Fe.T @ Fe
         Ee = log_strain_from_Ce(Ce)
         return {"F": F, "Ce": Ce, "Ee": Ee, "devEe": dev(Ee)}
+    if kin == "sethhill":
+        # Seth-Hill strain with m = 1/4 (the library's 'seth hill' option): (C^m - I)/(2m), C = F^T F, additive plastic strain
+        F = H + I3
+        C = F.T @ F
+        Ee = 2.0 * (symf(C, lambda w: w ** 0.25) - I3) - plastic_old
+        return {"F": F, "Ce": C, "Ee": Ee, "devEe": dev(Ee)}
     Ee = 0.5 * (H + H.T) - plastic_old
     return {"F": H + I3, "Ce": None, "Ee": Ee, "devEe": dev(Ee)}
 
@@ -181,7 +187,7 @@ def mises_of_stress(kin, P, H):
 
 def recover_increment(kin, plastic_old, plastic_new):
     """Plastic increment tensor D implied by two consecutive states, and its asymmetry defect."""
-    if kin == "small":
+    if kin != "large":
         D = plastic_new - plastic_old
         return 0.5 * (D + D.T), float(fro(D - D.T))
     X = plastic_new @ onp.linalg.inv(plastic_old)     # should be exp(D), symmetric positive definite
@@ -195,7 +201,7 @@ def recover_increment(kin, plastic_old, plastic_new):
 
 def dev_energy_of_candidates(kin, mu, tq, D):
     """mu*|dev Ee(D)|^2 for a stack of admissible plastic increments D (n,3,3)."""
-    if kin == "small":
+    if kin != "large":
         return mu * fro(tq["devEe"][None] - D) ** 2
     X = expm_sym(-D)
     Ce = onp.einsum("nij,jk,nkl->nil", X, tq["Ce"], X)
